@@ -418,3 +418,95 @@ def gen_conc_segments(nseg, seed, nthreads=(2, 4), oplen=(3, 14), prefix='conc')
                 cnt += 1
         out.append(('%s-%d-%d' % (prefix, seed, n), lines))
     return out
+
+# ---------------------------------------------------------------- exhaustive enumerations of small sub-spaces
+
+def exhaustive_bounds():
+    """C03: every bound pair 0 <= L <= H <= 3 and H = infinity, n = 0 .. H+2 matching calls (flags after each),
+    alone / with an older ALLOW fallback / with a newer REQUIRE(1,1) on top; plus every inverted RT_TIMES pair, with and without a sequence"""
+    segs = []
+    hs = [0, 1, 2, 3, INF]
+    for L in range(0, 4):
+        for H in hs:
+            if L > H:
+                continue
+            ncalls = (H if H != INF else L) + 2
+            for ctx in ('alone', 'fallback', 'ontop'):
+                ops = ['mock 0']
+                if ctx == 'fallback':
+                    ops.append(expect_line(2, 9, 0, retv=200))                       # older ALLOW_CALL takes the overflow
+                ops.append(expect_line(1, 2, 0, retv=100, lo=L, hi=H))
+                if ctx == 'ontop':
+                    ops.append(expect_line(3, 2, 0, retv=300, lo=1, hi=1))           # newer REQUIRE takes the first call
+                ops += ['call 0 1 0 0'] * (ncalls + (1 if ctx == 'ontop' else 0))
+                ops += ['release 1']
+                segs.append(('xb-%d-%d-%s' % (L, H, ctx), ops))
+    for L in range(1, 4):
+        for H in range(0, L):
+            segs.append(('xb-bad-%d-%d' % (L, H), ['mock 0', expect_line(1, 2, 0, lo=L, hi=H), 'call 0 1 0 0']))
+            segs.append(('xb-badseq-%d-%d' % (L, H), ['mock 0', 'seq 1', expect_line(1, 5, 0, lo=L, hi=H, q=(1, 0)),
+                                                       expect_line(2, 5, 0, lo=1, hi=1, q=(1, 0)), 'call 0 1 0 0', 'dseq 1']))
+    return segs
+
+def exhaustive_teardown():
+    """C04: one expectation (5 bound pairs x 0..2 handled calls) and every permutation of every non-empty subset of
+    {release it, destroy its mock, move its mock, a call matching nothing (lists it in the report)}"""
+    segs = []
+    bounds = [(1, 1), (0, 1), (2, 2), (1, INF), (0, 0)]
+    for (lo, hi) in bounds:
+        for n in range(0, 3):
+            if hi != INF and n > hi:
+                continue
+            for r in range(1, 5):
+                for subset in itertools.combinations('RDMN', r):
+                    for perm in itertools.permutations(subset):
+                        ops = ['mock 0', expect_line(1, 3, 0, p=((1, 0), (0, 0)), w=((0, 0),) * 3, retv=100, lo=lo, hi=hi)]
+                        ops += ['call 0 1 0 0'] * n
+                        mock, released, alive = 0, False, True
+                        for o in perm:
+                            if o == 'R':
+                                if not released:
+                                    ops.append('release 1'); released = True
+                            elif o == 'D':
+                                if alive:
+                                    ops.append('dmock %d' % mock); alive = False
+                            elif o == 'M':
+                                if alive and mock == 0:
+                                    ops.append('mmock 0 1'); mock = 1
+                            elif o == 'N':
+                                if alive:
+                                    ops.append('call %d 1 9 0' % mock)
+                        if not released:
+                            ops.append('release 1')
+                        segs.append(('xt-%d-%d-%d-%s' % (lo, hi, n, ''.join(perm)), ops))
+    return segs
+
+def exhaustive_sequences():
+    """C05/C06: two entries A (f(0)) and B (f(1)) registered in this order in one sequence, every pair of bounds from a
+    7-element set, every call string over {a, b} up to length 4 (is_completed and flags after each step), then tear-down;
+    and the same with B replaced by a sequenced REQUIRE_DESTRUCTION whose object dies at every position of the call string"""
+    segs = []
+    bset = [(1, 1), (0, 1), (1, 2), (2, 2), (0, INF), (1, INF), (2, 3)]
+    strings = [''.join(s) for n in range(1, 5) for s in itertools.product('ab', repeat=n)]
+    for (la, ha) in bset:
+        for (lb, hb) in bset:
+            for cs in strings:
+                ops = ['mock 0', 'seq 1',
+                       expect_line(1, 5, 0, p=((1, 0), (0, 0)), retv=100, lo=la, hi=ha, q=(1, 0)),
+                       expect_line(2, 5, 0, p=((1, 1), (0, 0)), retv=200, lo=lb, hi=hb, q=(1, 0))]
+                ops += ['call 0 1 %d 0' % (0 if c == 'a' else 1) for c in cs]
+                ops += ['release 1', 'dseq 1']
+                segs.append(('xs-%d.%d-%d.%d-%s' % (la, ha, lb, hb, cs), ops))
+    for (la, ha) in bset:
+        for cs in [''.join(s) for n in range(0, 4) for s in itertools.product('a', repeat=n)]:
+            for pos in range(0, len(cs) + 1):
+                ops = ['mock 0', 'seq 1', 'obj 1',
+                       expect_line(1, 5, 0, p=((1, 0), (0, 0)), retv=100, lo=la, hi=ha, q=(1, 0)),
+                       'watch 1 1 1 1 0']
+                calls = ['call 0 1 0 0' for _ in cs]
+                ops += calls[:pos] + ['dobj 1'] + calls[pos:]
+                ops += ['unwatch 1', 'release 1', 'dseq 1']
+                segs.append(('xsm-%d.%d-%s-%d' % (la, ha, cs or 'none', pos), ops))
+    return segs
+
+EXHAUSTIVE = {'C03': [exhaustive_bounds], 'C04': [exhaustive_teardown], 'C05': [exhaustive_sequences], 'C06': [exhaustive_sequences]}
